@@ -6,6 +6,7 @@ import (
 	"go/token"
 	"go/types"
 	"math/bits"
+	"strings"
 
 	"golang.org/x/tools/go/packages"
 	"golang.org/x/tools/go/types/typeutil"
@@ -25,6 +26,7 @@ func checkC16(c *Ctx, r *Report) {
 	checkWholeOps(c, r)
 	checkWholeOps2(c, r)
 	checkGetRowWhole(c, r)
+	checkBitArrayHistories(c, r)
 	r.Note("decided: the single-bit operations, per-word mask transitions, argument guards, word-geometry formulae, unconditional bit reversal in the 180-degree rotations and paired-slice loop bounds. Not decided: the model equivalence the property states over operation histories (rotation realignment shifts, GetNextSet/Unset scanning, growth) — run-time by nature")
 }
 
@@ -428,12 +430,16 @@ func checkContainerGuards(c *Ctx, r *Report) {
 		foldArgGuards(c, r, "M-GUARD", rel, fn, key, n, domain, hooksFor, invalid)
 	}
 	small := []int64{-2, -1, 0, 1, 5, 9, 10, 11, 12}
-	arrHooks := func(p *packages.Package) *rpf { return (&wordModel{words: map[int64]uint32{}}).hooks(p, 0, 0, 0, 10, 1) }
+	arrHooks := func(p *packages.Package) *rpf {
+		return (&wordModel{words: map[int64]uint32{}}).hooks(p, 0, 0, 0, 10, 1)
+	}
 	rangeInvalid := func(a []int64) bool { return a[1] < a[0] || a[0] < 0 || a[1] > 10 }
 	foldGuards("", "BitArray.SetRange", "gozxing.BitArray.SetRange", 2, [][]int64{small, small}, arrHooks, rangeInvalid)
 	foldGuards("", "BitArray.IsRange", "gozxing.BitArray.IsRange", 2, [][]int64{small, small}, arrHooks, rangeInvalid)
 	foldGuards("", "BitArray.AppendBits", "gozxing.BitArray.AppendBits", 2, [][]int64{{0, 5}, {-1, 0, 1, 31, 32, 33}}, arrHooks, func(a []int64) bool { return a[1] < 0 || a[1] > 32 })
-	matHooks := func(p *packages.Package) *rpf { return (&wordModel{words: map[int64]uint32{}}).hooks(p, 10, 6, 1, 0, 6) }
+	matHooks := func(p *packages.Package) *rpf {
+		return (&wordModel{words: map[int64]uint32{}}).hooks(p, 10, 6, 1, 0, 6)
+	}
 	foldGuards("", "BitMatrix.SetRegion", "gozxing.BitMatrix.SetRegion", 4, [][]int64{{-1, 0, 3, 9, 10}, {-1, 0, 2, 5, 6}, {-1, 0, 1, 7, 10, 11}, {-1, 0, 1, 4, 6, 7}}, matHooks,
 		func(a []int64) bool {
 			return a[1] < 0 || a[0] < 0 || a[3] < 1 || a[2] < 1 || a[1]+a[3] > 6 || a[0]+a[2] > 10
@@ -455,7 +461,7 @@ func checkRowSize(c *Ctx, r *Report) {
 				if id, isI := call.Fun.(*ast.Ident); isI && id.Name == "make" && len(call.Args) == 2 {
 					s2 := c.newSymExec(p)
 					for _, st := range fd.Body.List {
-						if as, isA := st.(*ast.AssignStmt); isA && as.Tok == token.DEFINE && st.End() < call.Pos() {
+						if as, isA := st.(*ast.AssignStmt); isA && as.Tok == token.DEFINE && wholeBefore(st, call) {
 							s2.stmt(as)
 						}
 					}
@@ -493,14 +499,20 @@ func checkRowSize(c *Ctx, r *Report) {
 		s := c.newSymExec(p)
 		ok := false
 		for _, st := range fd.Body.List {
-			if as, isA := st.(*ast.AssignStmt); isA && as.Tok == token.DEFINE {
+			as, isA := st.(*ast.AssignStmt)
+			if !isA || len(as.Lhs) != 1 || len(as.Rhs) != 1 {
+				continue
+			}
+			if as.Tok == token.DEFINE {
 				s.stmt(as)
-				if id, isI := as.Lhs[0].(*ast.Ident); isI && id.Name == "newRowSize" {
-					ro := polyAtom(objAtom(recvObj(p, fd))).String()
-					want := s32(polyAtom("fld(" + ro + ",height)"))
-					if s.env[identObj(p, as.Lhs[0])].equal(want) {
-						ok = true
-					}
+				continue
+			}
+			// the value stored into the rowSize field at the end
+			if sel, isS := as.Lhs[0].(*ast.SelectorExpr); isS && sel.Sel.Name == "rowSize" && as.Tok == token.ASSIGN {
+				ro := polyAtom(objAtom(recvObj(p, fd))).String()
+				want := s32(polyAtom("fld(" + ro + ",height)"))
+				if v := s.expr(as.Rhs[0]); v != nil && v.equal(want) {
+					ok = true
 				}
 			}
 		}
@@ -1347,20 +1359,54 @@ func checkWholeOps2(c *Ctx, r *Report) {
 	}
 	{
 		bad := ""
-		for _, w := range []int64{5, 32, 40} {
-			bs := newBitStoreMatrix(w, 2, mpat)
-			before := map[int64]uint32{}
-			for k, v := range bs.words {
-				before[k] = v
-			}
-			_, e := foldOn("BitMatrix.FlipAll", bs, nil)
-			if e != "" {
-				bad = e
+		for _, w := range []int64{5, 31, 32, 33, 40, 64, 70} {
+			if bad != "" {
 				break
 			}
-			for i := int64(0); i < bs.nwords; i++ {
-				if bs.words[i] != ^before[i] {
-					bad = fmt.Sprintf("FlipAll of a %dx2 matrix: word %d is %#x, expected the complement %#x", w, i, bs.words[i], ^before[i])
+			// a sparse matrix: the complement has its last set module in the last column, next to the unused bits of the word
+			sparse := func(x, y int64) bool { return x == 1 && y == 0 }
+			for pi, pat := range []func(x, y int64) bool{mpat, sparse} {
+				if bad != "" {
+					break
+				}
+				bs := newBitStoreMatrix(w, 2, pat)
+				_, e := foldOn("BitMatrix.FlipAll", bs, nil)
+				if e != "" {
+					bad = e
+					break
+				}
+				var set [][2]int64
+				for y := int64(0); y < 2 && bad == ""; y++ {
+					for x := int64(0); x < w; x++ {
+						got := bs.words[y*bs.rowSize+x/32]>>(uint(x)%32)&1 == 1
+						if got == pat(x, y) {
+							bad = fmt.Sprintf("FlipAll of a %dx2 matrix: module (%d,%d) was %v and is %v", w, x, y, pat(x, y), got)
+							break
+						}
+						if got {
+							set = append(set, [2]int64{x, y})
+						}
+					}
+				}
+				// the queries on the flipped matrix answer as the model does (whatever the implementation does with
+				// the unused bits of each row's last word)
+				for _, q := range []string{"BitMatrix.GetTopLeftOnBit", "BitMatrix.GetBottomRightOnBit", "BitMatrix.GetEnclosingRectangle"} {
+					if bad != "" {
+						break
+					}
+					res, e := foldOn(q, bs, nil)
+					if e != "" {
+						bad = e
+						break
+					}
+					want := cornerModel(q, w, 2, set)
+					var got []int64
+					if len(res) == 1 && res[0].K == VList {
+						got, _ = listInts(res[0])
+					}
+					if len(res) != 1 || fmt.Sprint(got) != fmt.Sprint(want) {
+						bad = fmt.Sprintf("FlipAll of a %dx2 matrix (pattern %d), then %s: returns %v, the model gives %v", w, pi, strings.TrimPrefix(q, "BitMatrix."), got, want)
+					}
 				}
 			}
 		}
@@ -1392,44 +1438,7 @@ func checkWholeOps2(c *Ctx, r *Report) {
 				bad = e
 				break
 			}
-			var want []int64
-			if len(cs.set) > 0 {
-				switch name {
-				case "BitMatrix.GetTopLeftOnBit":
-					best := cs.set[0]
-					for _, s := range cs.set {
-						if s[1] < best[1] || (s[1] == best[1] && s[0] < best[0]) {
-							best = s
-						}
-					}
-					want = []int64{best[0], best[1]}
-				case "BitMatrix.GetBottomRightOnBit":
-					best := cs.set[0]
-					for _, s := range cs.set {
-						if s[1] > best[1] || (s[1] == best[1] && s[0] > best[0]) {
-							best = s
-						}
-					}
-					want = []int64{best[0], best[1]}
-				default:
-					l, tp, rg, bt := cs.w, cs.h, int64(-1), int64(-1)
-					for _, s := range cs.set {
-						if s[0] < l {
-							l = s[0]
-						}
-						if s[0] > rg {
-							rg = s[0]
-						}
-						if s[1] < tp {
-							tp = s[1]
-						}
-						if s[1] > bt {
-							bt = s[1]
-						}
-					}
-					want = []int64{l, tp, rg - l + 1, bt - tp + 1}
-				}
-			}
+			want := cornerModel(name, cs.w, cs.h, cs.set)
 			var got []int64
 			if len(res) == 1 && res[0].K == VList {
 				got, _ = listInts(res[0])
@@ -1537,4 +1546,195 @@ func checkGetRowWhole(c *Ctx, r *Report) {
 	}
 	r.Extra("S-GETROW folds", folds)
 	reportFold(r, c, "S-GETROW", key, fd.Pos(), bad)
+}
+
+// S-HIST: short histories of a bit array folded from the source, storage included
+func checkBitArrayHistories(c *Ctx, r *Report) {
+	r.Rule("S-HIST", "bit arrays built the way callers build them - NewEmptyBitArray or NewBitArray(n) for n = 0, 1, 31, 32, 33, then 0..70 appended bits (AppendBit, and AppendBits in groups of 10) - are folded from the source with their real storage (constructor, ensureCapacity and makeArray included, so whatever spare words the growth policy leaves are there), then reversed: after every history the size is the number of bits put in, bit i of the store is the model's bit for i < size and clear for every i from size to the end of the store, and after Reverse bit i is the model's bit size-1-i", 1)
+	key := "gozxing.BitArray/histories"
+	need := map[string]*ast.FuncDecl{}
+	var pk *packages.Package
+	for _, n := range []string{"NewEmptyBitArray", "NewBitArray", "BitArray.AppendBit", "BitArray.AppendBits", "BitArray.Reverse"} {
+		fd, p := c.funcDeclOf("", n)
+		if fd == nil {
+			r.AnchorLost("S-HIST", key, n+" not found")
+			return
+		}
+		need[n], pk = fd, p
+	}
+	r.Analysed(key)
+	pattern := func(i int64) bool { return (i*7+i/3)%5 < 2 }
+	call := func(name string, recv *Val, args ...*Val) ([]*Val, error) {
+		fd := need[name]
+		h := &rpf{unroll: 4096, effectCalls: true, env: map[types.Object]*Val{}}
+		if recv != nil {
+			h.env[recvObj(pk, fd)] = recv
+		}
+		return c.rpfCall(fd, pk, args, h)
+	}
+	check := func(what string, a *Val, model []bool, reversed bool) string {
+		if a.K != VStruct || a.Fields["bits"] == nil || a.Fields["size"] == nil || !a.Fields["size"].isInt() {
+			return "?" + what + ": not a bit array value"
+		}
+		n := int64(len(model))
+		if a.Fields["size"].I != n {
+			return fmt.Sprintf("%s: the size is %d, %d bits were put in", what, a.Fields["size"].I, n)
+		}
+		ws, ok := listInts(a.Fields["bits"])
+		if !ok {
+			return "?" + what + ": the words are not constants"
+		}
+		if int64(len(ws))*32 < n {
+			return fmt.Sprintf("%s: %d words cannot hold %d bits", what, len(ws), n)
+		}
+		for i := int64(0); i < int64(len(ws))*32; i++ {
+			got := uint32(ws[i/32])>>(uint(i)%32)&1 == 1
+			want := false
+			if i < n {
+				want = model[i]
+				if reversed {
+					want = model[n-1-i]
+				}
+			}
+			if got != want {
+				if i >= n {
+					return fmt.Sprintf("%s: bit %d of the store is set, beyond the %d bits of the array", what, i, n)
+				}
+				return fmt.Sprintf("%s: bit %d is %v, the model holds %v", what, i, got, want)
+			}
+		}
+		return ""
+	}
+	bad := ""
+	folds := 0
+	type start struct {
+		name string
+		n    int64
+	}
+	starts := []start{{"NewEmptyBitArray", 0}, {"NewBitArray", 0}, {"NewBitArray", 1}, {"NewBitArray", 31}, {"NewBitArray", 32}, {"NewBitArray", 33}}
+	maxApp := int64(70)
+	for _, st := range starts {
+		for _, grouped := range []bool{false, true} {
+			if bad != "" {
+				break
+			}
+			var args []*Val
+			desc := "NewEmptyBitArray()"
+			if st.name == "NewBitArray" {
+				args = []*Val{vint(st.n)}
+				desc = fmt.Sprintf("NewBitArray(%d)", st.n)
+			}
+			res, err := call(st.name, nil, args...)
+			folds++
+			if err != nil || len(res) != 1 {
+				bad = fmt.Sprintf("?%s: %v", desc, err)
+				break
+			}
+			arr := res[0]
+			model := make([]bool, st.n)
+			step := int64(1)
+			if grouped {
+				step = 10
+			}
+			for k := int64(0); k <= maxApp && bad == ""; k += step {
+				what := fmt.Sprintf("%s then %d bits appended", desc, k)
+				if grouped {
+					what += " in groups of 10"
+				}
+				if bad = check(what, arr, model, false); bad != "" {
+					break
+				}
+				// reverse a copy of the state
+				cp := &Val{K: VStruct, Ptr: true, Local: true, Fields: map[string]*Val{"size": vint(arr.Fields["size"].I)}}
+				words := &Val{K: VList, Local: true}
+				for _, w := range arr.Fields["bits"].L {
+					words.L = append(words.L, &Val{K: VInt, I: w.I, T: types.Typ[types.Uint32]})
+				}
+				cp.Fields["bits"] = words
+				_, err := call("BitArray.Reverse", cp)
+				folds++
+				if err != nil {
+					if strings.Contains(err.Error(), "out of range") {
+						bad = fmt.Sprintf("%s: Reverse indexes outside its storage (%v): a run-time panic", what, err)
+					} else {
+						bad = fmt.Sprintf("?%s, Reverse: %v", what, err)
+					}
+					break
+				}
+				if bad = check(what+", after Reverse", cp, model, true); bad != "" {
+					break
+				}
+				if k == maxApp {
+					break
+				}
+				// next appends
+				if grouped {
+					var v int64
+					for j := int64(0); j < 10; j++ {
+						b := pattern(int64(len(model)))
+						model = append(model, b)
+						v <<= 1
+						if b {
+							v |= 1
+						}
+					}
+					res, err = call("BitArray.AppendBits", arr, vint(v), vint(10))
+					if err == nil && (len(res) != 1 || res[0].K != VNil) {
+						err = fmt.Errorf("AppendBits(%#x, 10) returns an error", v)
+					}
+				} else {
+					b := pattern(int64(len(model)))
+					model = append(model, b)
+					_, err = call("BitArray.AppendBit", arr, vbool(b))
+				}
+				folds++
+				if err != nil {
+					bad = fmt.Sprintf("?%s, next append: %v", what, err)
+				}
+			}
+		}
+	}
+	r.Extra("S-HIST method folds", folds)
+	reportFold(r, c, "S-HIST", key, need["BitArray.Reverse"].Pos(), bad)
+}
+
+// cornerModel answers GetTopLeftOnBit / GetBottomRightOnBit / GetEnclosingRectangle for a matrix with the given set modules.
+func cornerModel(name string, w, h int64, set [][2]int64) []int64 {
+	if len(set) == 0 {
+		return nil
+	}
+	switch name {
+	case "BitMatrix.GetTopLeftOnBit":
+		best := set[0]
+		for _, s := range set {
+			if s[1] < best[1] || (s[1] == best[1] && s[0] < best[0]) {
+				best = s
+			}
+		}
+		return []int64{best[0], best[1]}
+	case "BitMatrix.GetBottomRightOnBit":
+		best := set[0]
+		for _, s := range set {
+			if s[1] > best[1] || (s[1] == best[1] && s[0] > best[0]) {
+				best = s
+			}
+		}
+		return []int64{best[0], best[1]}
+	}
+	l, tp, rg, bt := w, h, int64(-1), int64(-1)
+	for _, s := range set {
+		if s[0] < l {
+			l = s[0]
+		}
+		if s[0] > rg {
+			rg = s[0]
+		}
+		if s[1] < tp {
+			tp = s[1]
+		}
+		if s[1] > bt {
+			bt = s[1]
+		}
+	}
+	return []int64{l, tp, rg - l + 1, bt - tp + 1}
 }
